@@ -7,8 +7,8 @@ From Toasty Require Import Generated.CliTransformSrc.
 Import ListNotations.
 Local Open Scope string_scope.
 
-Lemma src_transform_impl_eq (is_none : sval unit -> bool) (eq_lit : sval unit -> string -> bool) :
-  run_tree is_none eq_lit src_cli_transform_impl = transform_impl_model is_none eq_lit.
+Lemma src_transform_impl_eq (is_none : sval unit -> bool) (eq_lit : sval unit -> string -> bool) (is_true : sval unit -> bool) :
+  run_tree is_none eq_lit is_true src_cli_transform_impl = transform_impl_model is_none eq_lit.
 Proof.
   unfold transform_impl_model, transform_call, src_cli_transform_impl. cbn [run_tree].
   destruct (is_none (setting "transform_command")) eqn:E0; unfold setting in *; rewrite ?E0; [reflexivity|].
